@@ -548,7 +548,9 @@ fn sequence_of_length(rng: &mut Rng, rep: &mut Report, n_ops: usize) {
 /// first pixel past every 2^32-dot mark, random ones — are written, read back, checked against the byte and bit the
 /// layout prescribes, and cleared again; their neighbours stay dark.
 fn gigantic_pages(rng: &mut Rng, rep: &mut Report) {
-    for (w, h) in [(65_537u32, 65_536u32), (65_536, 65_537), ((1 << 28) + 1, 16), (65_536, 65_536), (65_535, 65_536), (8_388_609, 512)] {
+    // ... and pages that are a few columns of enormous HEIGHT (past 2^24, 2^30, 2^31, up to u32::MAX rows): where a column's
+    // byte count is worked out in anything narrower or less exact than the height itself, it goes wrong here
+    for (w, h) in [(65_537u32, 65_536u32), (65_536, 65_537), ((1 << 28) + 1, 16), (65_536, 65_536), (65_535, 65_536), (8_388_609, 512), (2, (1 << 24) + 1), (3, (1 << 24) + 9), (2, (1 << 30) + 1), (1, (1 << 31) + 1), (1, u32::MAX), (1, u32::MAX - 7)] {
         let cb = (h as usize).div_ceil(8);
         let data = 4 + (w as usize) * cb;
         let len = data.div_ceil(16) * 16;
@@ -566,6 +568,7 @@ fn gigantic_pages(rng: &mut Rng, rep: &mut Report) {
         for _ in 0..12 {
             probes.push((rng.below(u64::from(w)) as u32, rng.below(u64::from(h)) as u32));
         }
+        probes.retain(|&(x, y)| x < w && y < h);
         for owned in [true, false] {
             let backing: Vec<u8> = if owned { vec![] } else { vec![0u8; len] };
             let r = catch(std::panic::AssertUnwindSafe(|| -> Result<Vec<String>, String> {
@@ -663,7 +666,7 @@ pub fn run(ctx: &Ctx) -> Outcome {
     }
     let floors = vec![
         floor("every page asked for could be built (otherwise the bounds rules were not observed on those sizes)", report.get("pages_that_could_not_be_built") == 0, report.get("pages_that_could_not_be_built")),
-        floor("pages whose dot count passes 2^32 (65537x65536, 65536x65537, (2^28+1)x16, ...), owned and borrowed, probed at the corners, past the 2^32-dot mark and at random", report.get("gigantic_pages_probed") == 12, report.get("gigantic_pages_probed")),
+        floor("pages whose dot count passes 2^32 (65537x65536, 65536x65537, (2^28+1)x16, ...), owned and borrowed, probed at the corners, past the 2^32-dot mark and at random", report.get("gigantic_pages_probed") == 24, report.get("gigantic_pages_probed")),
         floor("out-of-bounds accesses made from a destructor while another panic unwinds (every size of the box)", report.get("oob_accesses_made_while_a_panic_unwinds") > 10_000 && report.get("oob_while_unwinding_not_reached") == 0, report.get("oob_accesses_made_while_a_panic_unwinds")),
         floor("the same coordinate written and read on pages of different strides one after the other", report.get("same_coordinate_on_one_page_after_another") > 500, report.get("same_coordinate_on_one_page_after_another")),
         floor("every size of the box explored", report.get("box_sizes_done") == box_n as u64, report.get("box_sizes_done")),
